@@ -9,7 +9,8 @@ TMP=$(mktemp -d /tmp/mm_XXXXXX)
 one() {
   d=$1; id=$(basename $d); prop=${id%-*}
   extra=""
-  case $id in C05-m1) extra="C06";; C08-m1) extra="C19";; C10-m1) extra="C03";; C08-m2) extra="C13";; C15-m2) extra="C14";; C20-m3) extra="C11";; esac
+  case $id in C05-m1) extra="C06";; C08-m1) extra="C19";; C10-m1) extra="C03";; C08-m2) extra="C13";; C15-m2) extra="C14";; C20-m3) extra="C11";;
+             C03-m6) extra="C07";; C06-m5) extra="C09";; C07-m6) extra="C06";; C09-m6) extra="C08";; esac
   WT=$TMP/wt_$id
   git -C /repo worktree add -q --detach $WT HEAD || { echo -e "$id\t$prop\t-\tNA\t0\tworktree failed" > $TMP/$id.tsv; return; }
   if ! git -C $WT apply $HERE/$d/patch.diff; then
